@@ -55,3 +55,23 @@ Theorem C09_oracle_accepts_model_traces_with_pairs : forall xs rf0 n w0, (1 <= r
 Proof. exact c09_oracle_model_x. Qed.
 
 Print Assumptions C09_oracle_accepts_model_traces_with_pairs.
+
+(** a replica that registers again under a new address (same UUID) replaces its older registration:
+    the second trace oracle (with the UUID every address registered with last as its memory) accepts
+    every trace of the model: after a registration with a UUID other than the empty one, no other
+    registered address carries that UUID (one replica is never counted twice towards the majority) *)
+From Jiva Require Import Ctl.OracleProofsU.
+
+Theorem C09_one_registration_per_uuid : forall es rf0 n w0, (1 <= rf0)%nat -> forallb ev_wf es = true ->
+  walk_u liftu 0 [] (obs0 rf0 n w0) (map One es) (trace n (init rf0 w0) (map One es)) = None.
+Proof. exact c09u_oracle_model. Qed.
+
+Print Assumptions C09_one_registration_per_uuid.
+
+(** the same for histories with concurrent pairs (the UUID memory sees the two requests in the order
+    the controller lock serialises them) *)
+Theorem C09_one_registration_per_uuid_with_pairs : forall xs rf0 n w0, (1 <= rf0)%nat -> forallb xev_wf xs = true ->
+  walk_u liftu 0 [] (obs0 rf0 n w0) xs (trace n (init rf0 w0) xs) = None.
+Proof. exact c09u_oracle_model_x. Qed.
+
+Print Assumptions C09_one_registration_per_uuid_with_pairs.
